@@ -87,7 +87,7 @@ fn cmd_sched(args: &[String]) -> i32 {
                 let sv = &scenarios[i];
                 let sc = sched::Scenario::from_json(sv);
                 let policy = sv.get("policy").and_then(|x| x.as_str()).unwrap_or("dfs").to_string();
-                let mut prefix: Vec<usize> = vec![];
+                let mut prefix: Vec<usize> = sv.get("prefix").and_then(|x| x.as_array()).map(|a| a.iter().map(|x| x.as_u64().unwrap_or(0) as usize).collect()).unwrap_or_default();
                 let mut count = 0usize;
                 loop {
                     let dir = root.join(format!("s{i}-{j}-{runs}"));
@@ -144,7 +144,7 @@ fn cmd_sched(args: &[String]) -> i32 {
                                 "schedule": out.choices.iter().map(|c| c.0).collect::<Vec<_>>(),
                                 "policy": policy, "verdict": out.verdict, "detail": out.detail,
                                 "problems": problems.iter().map(|(p, m)| json!({"property": p, "message": m})).collect::<Vec<_>>(),
-                                "events": out.events,
+                                "events": out.events.iter().take(300).cloned().collect::<Vec<_>>(),
                             }));
                         }
                         for (p, _) in &problems {
@@ -168,6 +168,9 @@ fn cmd_sched(args: &[String]) -> i32 {
                         let _ = std::fs::remove_dir_all(&dir);
                     } else if ABANDONED.fetch_add(1, Ordering::SeqCst) >= MAX_ABANDONED {
                         *local.entry("stopped_after_too_many_hangs".into()).or_insert(0) += 1;
+                        break;
+                    }
+                    if policy == "prefix" {
                         break;
                     }
                     if policy == "dfs" {
